@@ -359,7 +359,9 @@ func (p *Proxy) handleCONNECT(r responder.Responder, proxyReq *http.Request) err
 		req.Close = true
 		// Every exchange gets its own responder: a responder accumulates the headers, framing and
 		// status of the response it builds, none of which may leak into the next exchange.
-		if err := p.handleHTTP(responder.NewRawHTTPResponder(tlsConn), req); err != nil {
+		exchangeResponder := responder.NewRawHTTPResponder(tlsConn)
+		exchangeResponder.SetRequest(req)
+		if err := p.handleHTTP(exchangeResponder, req); err != nil {
 			slog.Error("Error processing HTTP request in CONNECT tunnel", "host", proxyReq.Host, "error", err)
 			if errors.Is(err, ErrResponseIncomplete) {
 				// The client has a head that promises more than it got (the origin broke off, or the
